@@ -146,7 +146,7 @@ def eval_term(t) -> Decimal:
     if k == 'lit':
         return Decimal(t[1].replace(',', ''))
     if k == 'neg':
-        return -eval_term(t[1])
+        return eval_term(t[1]).copy_negate()      # sign application is exact (no context rounding)
     a, b = eval_term(t[1]), eval_term(t[2])
     return {'add': lambda: a + b, 'sub': lambda: a - b, 'mul': lambda: a * b, 'div': lambda: a / b}[k]()
 
@@ -362,11 +362,21 @@ DOCS = [
     ('2000-01-01 balance Assets:A  {} USD\n', lambda f: f.raw_directives[0].raw_number),
     ('2000-01-01 open Assets:A\n2000-01-02 price USD   {} EUR\n; end\n', lambda f: f.raw_directives[1].raw_amount.raw_number),
 ]
+# the owner's value view of the attached expression (posting.number, balance.number, amount.number)
+OWNER_NUMBER = [
+    lambda f: f.raw_directives[0].raw_postings[0].number,
+    lambda f: f.raw_directives[0].number,
+    lambda f: f.raw_directives[1].raw_amount.number,
+]
 
 DECS = ['0', '5', '-3', '12.50', '-0.75', '1000000', '2', '-1', '0.1', '7.25', '-120',
         # exponents and trailing zeros: str() of these is scientific, Number._format_value must write plain notation
         '1E+3', '-1E+3', '1E-7', '-2.5E-7', '1.2300E+2', '-1.2300E+2', '0E-5', '-0E-5', '0E+2', '12E+1', '3.40E-3',
-        '1E+12', '-7.000', '1.0E-9']
+        '1E+12', '-7.000', '1.0E-9',
+        # longer than the context precision (28 digits): from_value must not round them
+        '1.' + '1' * 40, '123456789012345678901234567890.123456789', '0.' + '0' * 30 + '7', '9' * 35,
+        '-' + '1.' + '1' * 40, '-' + '9' * 35 + '.5', '-2E-29', '-1.00000000000000000000000000049',
+        '-0.' + '0' * 30 + '7', '-123456789012345678901234567890.123456789']
 INTS = [0, 1, 2, 3, -1, -7, 10, 12, 100, -250, 4, 5]
 
 
@@ -390,13 +400,77 @@ def gen_chain(rng) -> dict:
         self_spec['doc'] = rng.randrange(len(DOCS))
     steps = []
     for _ in range(rng.choice([1, 1, 2, 3, 4])):
-        if rng.random() < 0.15:
+        r = rng.random()
+        if r < 0.12:
             steps.append({'op': rng.choice(['neg', 'pos'])})
+        elif r < 0.32:
+            steps.append({'op': 'edit', 'leaf': rng.randrange(1000), 'new': rng.randrange(1000),
+                          'via': rng.choice(['text', 'value'])})
+        elif r < 0.37:
+            steps.append({'op': 'setvalue', 'v': rng.choice(DECS)})
         else:
             steps.append({'op': rng.choice(['add', 'sub', 'mul', 'div']),
                           'form': rng.choice(['plain', 'plain', 'refl', 'inplace']),
                           'operand': gen_operand(rng)})
+    if rng.random() < 0.12:
+        steps.append({'op': 'replace_inner', 'which': rng.randrange(1000), 'text': gen_expr(rng, rng.choice([0, 1, 2]))})
     return {'self': self_spec, 'steps': steps}
+
+
+DECIMAL_LAW_FAILURES: list[str] = []
+
+
+def scalar_value(d: Decimal) -> Decimal:
+    """the value of an int/Decimal operand is d itself.  Also validates, on every scalar used, the three laws
+    of decimal that C13_from_value_exact assumes of the carrier (dabs = copy_abs, dneg = copy_negate,
+    num_text = format(.,'f'), num_value = Decimal(text))."""
+    a = d.copy_abs()
+    if not (Decimal(format(a, 'f')) == a and (a.copy_negate() == d if d < 0 else a == d)):
+        DECIMAL_LAW_FAILURES.append(str(d))
+    return d
+
+
+def nodes_and_leaves(expr):
+    """every node of the tree (for reading .value) and its leaf tokens in order with their kind"""
+    M = impl()['models']
+    nodes, leaves, parens = [expr], [], []
+
+    def atom(a):
+        nodes.append(a)
+        if isinstance(a, M.Number):
+            leaves.append(('num', a))
+        elif isinstance(a, M.NumberParenExpr):
+            parens.append(a)
+            leaves.append(('lp', a._left_paren))
+            add(a._inner_expr)
+            leaves.append(('rp', a._right_paren))
+        else:
+            leaves.append(('un', a._unary_op))
+            atom(a._operand)
+
+    def mul(m):
+        nodes.append(m)
+        atom(m.raw_operands[0])
+        for op, a in zip(m.raw_ops, m.raw_operands[1:]):
+            leaves.append(('mulop', op))
+            atom(a)
+
+    def add(e):
+        nodes.append(e)
+        mul(e.raw_operands[0])
+        for op, m in zip(e.raw_ops, e.raw_operands[1:]):
+            leaves.append(('addop', op))
+            mul(m)
+
+    add(expr.raw_number_add_expr)
+    return nodes, leaves, parens
+
+
+def touch_values(expr) -> None:
+    """read .value of the expression and of every sub-expression (so that anything that remembers a value has
+    remembered it before the next edit)"""
+    for n in nodes_and_leaves(expr)[0]:
+        safe(lambda: n.value)
 
 
 # ------------------------------------------------------------------------------------------------
@@ -425,7 +499,7 @@ def coq_operand(spec, obs_before) -> str:
         return f'(OInt {coq_z(spec["v"])})'
     if spec['t'] == 'dec':
         d = Decimal(spec['v'])
-        return f'(ODec (SExt {coq_bool(d < 0)} {coq_str(format(abs(d), 'f'))}))'
+        return f'(ODec (SExt {coq_bool(d < 0)} {coq_str(format(d.copy_abs(), 'f'))}))'
     return f'(OExpr (of_obs {coq_obs(obs_before)}))'
 
 
@@ -459,7 +533,26 @@ class ChainRun:
             where = f'step {n} ({st["op"]} {st.get("form", "")})'
             x_text0 = print_model(x)
             xdoc_text0 = print_model(xdoc) if xdoc is not None else None
+            touch_values(x)
+            if xdoc is not None:
+                safe(lambda: OWNER_NUMBER[self.chain['self']['doc']](xdoc))
             v_self = safe(lambda: x.value)
+            if st['op'] in ('edit', 'setvalue', 'replace_inner'):
+                try:
+                    coq_step = self.edit_step(where, st, x)
+                except Malformed as e:
+                    self.fail('C13:not-self-contained', f'{where}: {e}')
+                    ok_coq = False
+                    break
+                except Exception as e:
+                    self.fail('C13:op-raised', f'{where}: raised {type(e).__name__}')
+                    return self
+                self.monitor_owner(where, x, xdoc)
+                if st['op'] == 'replace_inner':
+                    break           # monitor only (always the last step); the Coq case holds the steps before it
+                if coq_step is not None:
+                    steps_coq.append(coq_step)
+                continue
             if st['op'] in ('neg', 'pos'):
                 minus = st['op'] == 'neg'
                 try:
@@ -467,7 +560,7 @@ class ChainRun:
                 except Exception as e:
                     self.fail('C13:op-raised', f'{where}: unary operator raised {type(e).__name__}')
                     return self
-                expected = None if v_self is None else (-v_self if minus else v_self)
+                expected = None if v_self is None else (v_self.copy_negate() if minus else v_self)
                 self.monitor_result(where, r, expected)
                 self.monitor_unchanged(where, 'self', x, x_text0, xdoc, xdoc_text0)
                 try:
@@ -489,7 +582,7 @@ class ChainRun:
                 v_other = Decimal(o)
             elif spec['t'] == 'dec':
                 o = Decimal(spec['v'])
-                v_other = o
+                v_other = scalar_value(o)
             elif spec['t'] == 'alias':
                 o, odoc = x, xdoc
                 v_other = v_self
@@ -565,9 +658,65 @@ class ChainRun:
             x = r
             if not inplace:
                 xdoc = None
+            else:
+                self.monitor_owner(where, x, xdoc)
         if ok_coq:
             self.coq = f'mkccase {coq_obs(self_obs0)} {coq_list(steps_coq)}'
         return self
+
+    # -- evaluate - edit - evaluate -------------------------------------------------------------
+    def edit_step(self, where, st, x) -> Optional[str]:
+        I = impl()
+        _, leaves, parens = nodes_and_leaves(x)
+        if st['op'] == 'setvalue':
+            d = Decimal(st['v'])
+            x.value = d
+            self.monitor_result(where, x, safe(lambda: scalar_value(d)))
+            return (f'StSetValue (SExt {coq_bool(d < 0)} {coq_str(format(d.copy_abs(), "f"))}) 0 {coq_obs(observe(x))} '
+                    f'{coq_term(term_of_text(print_model(x)))}')
+        if st['op'] == 'replace_inner':
+            if not parens:
+                return None
+            p = parens[st['which'] % len(parens)]
+            p.raw_inner_expr = I['parser'].parse(st['text'], I['models'].NumberExpr).raw_number_add_expr
+            self.monitor_result(where, x, None)
+            return None
+        editable = [i for i, (k, _) in enumerate(leaves) if k not in ('lp', 'rp')]
+        i = editable[st['leaf'] % len(editable)]
+        kind, tok = leaves[i]
+        if kind == 'num':
+            new = NUMS[st['new'] % len(NUMS)]
+            if st['via'] == 'value':
+                d = Decimal(new.replace(',', ''))
+                tok.value = d
+                new = format(d, 'f')
+            else:
+                tok.raw_text = new
+            coq_tok = f'(TNum {coq_str(new)})'
+        elif kind == 'mulop':
+            new = '*/'[st['new'] % 2]
+            tok.raw_text = new
+            coq_tok = f'(TMulOp {coq_bool(new == "/")})'
+        else:
+            new = '+-'[st['new'] % 2]
+            tok.raw_text = new
+            coq_tok = f'({"TUn" if kind == "un" else "TAddOp"} {coq_bool(new == "-")})'
+        self.stats['edits'] = self.stats.get('edits', 0) + 1
+        self.monitor_result(where, x, None)
+        return f'StEdit {i} {coq_tok} 0 {coq_obs(observe(x))} {coq_term(term_of_text(print_model(x)))}'
+
+    def monitor_owner(self, where, x, xdoc):
+        """posting.number / balance.number / amount.number of the owner = evaluation of the printed expression"""
+        if xdoc is None:
+            return
+        try:
+            v_text = safe(lambda: eval_term(term_of_text(print_model(x))))
+        except Exception:
+            return      # reported by monitor_result
+        v_owner = safe(lambda: OWNER_NUMBER[self.chain['self']['doc']](xdoc))
+        if v_text is not None and v_owner is not None and v_owner != v_text:
+            self.fail('C13:printed-text-other-value',
+                      f'{where}: the owner\'s .number is {v_owner} but the expression prints {print_model(x)!r} = {v_text}')
 
     # -- monitors -------------------------------------------------------------------------------
     def monitor_result(self, where, r, expected):
@@ -658,6 +807,16 @@ FIXED_TEXTS = ['1', '1+2', '1-2-3', '2*3/4*5', '1+2*3', '(1+2)*3', '-(1+2)', '--
                '12 +\t34', '((1))', '-1*-2', '1/(2/3)', '1-(2-3)', '1 + 2 * (3 - 4) / -5', '1,234.5*2', '( 1 )']
 
 CORPUS = [
+    # evaluate - edit - evaluate: a literal / an operator inside parentheses, free and attached (after `*=`)
+    {'self': {'t': 'expr', 'text': '10 * (2 + 3) - 4', 'doc': None},
+     'steps': [{'op': 'edit', 'leaf': 5, 'new': 15, 'via': 'value'}, {'op': 'edit', 'leaf': 6, 'new': 0, 'via': 'text'},
+               {'op': 'setvalue', 'v': '-12.50'}]},
+    {'self': {'t': 'expr', 'text': '2 + 3', 'doc': 0},
+     'steps': [{'op': 'mul', 'form': 'inplace', 'operand': {'t': 'int', 'v': 10}},
+               {'op': 'edit', 'leaf': 2, 'new': 15, 'via': 'text'},
+               {'op': 'sub', 'form': 'plain', 'operand': {'t': 'int', 'v': 1}}]},
+    {'self': {'t': 'expr', 'text': '1 + (2 - 3)', 'doc': 1},
+     'steps': [{'op': 'replace_inner', 'which': 0, 'text': '4 * 5 + 6'}]},
     {'self': {'t': 'expr', 'text': '1+2', 'doc': None},
      'steps': [{'op': 'add', 'form': 'plain', 'operand': {'t': 'expr', 'text': '3 * 4', 'doc': None}}]},
     {'self': {'t': 'expr', 'text': '7', 'doc': None},
@@ -724,6 +883,7 @@ def run_chains(ctx, n: int):
         ctx.count('impl_steps', cr.stats['steps'])
         ctx.count('results_with_parentheses', cr.stats['wrapped'])
         ctx.count('attached_operands', cr.stats['attached'])
+        ctx.count('token_edits_after_evaluation', cr.stats.get('edits', 0))
         ctx.count('undefined_arithmetic_skipped', cr.stats['undefined'])
         flagged = False
         for sig, what in cr.fails:
@@ -781,6 +941,12 @@ def body(ctx):
     check_tie(ctx)
     run_parse(ctx, ctx.scale(600, 5000))
     run_chains(ctx, ctx.scale(900, 8000))
+    for d in DECS:
+        scalar_value(Decimal(d))
+    for d in sorted(set(DECIMAL_LAW_FAILURES))[:3]:
+        ctx.fail('tie', 'decimal-law', "CPython's decimal does not satisfy a carrier law assumed by C13_from_value_exact "
+                 "(Decimal(format(|d|,'f')) == |d|, |d|.copy_negate() == d for d < 0, |d| == d otherwise)", {'d': d})
+    ctx.count('decimal_laws_validated_on_scalars', len(DECS))
 
 
 def run(ctx: common.Ctx):
@@ -794,8 +960,10 @@ def run(ctx: common.Ctx):
         "Python's decimal implements the arithmetic (the theorems are parametric in the carrier and use no law of it)",
         'lark tokenizes the characters of an expression into NUMBER / operators / parentheses / whitespace as the '
         "harness' regular-expression tokenizer does (compared on every generated text)",
-        "format(abs(d), 'f') is how decimal spells an int/Decimal operand in plain notation (Decimal('1E+3') -> '1000', "
+        "format(d.copy_abs(), 'f') is how decimal spells an int/Decimal operand in plain notation (Decimal('1E+3') -> '1000', "
         "Decimal('1E-7') -> '0.0000001'); compared with what Number.from_value wrote on every scalar operand",
+        "carrier laws of C13_from_value_exact (plain-notation round trip of |d|, copy_negate(copy_abs(d)) == d for "
+        "d < 0, copy_abs(d) == d otherwise) are validated against CPython's decimal on every scalar operand used",
         'the operand copy of fixes/number-expr-operand-copy.patch is applied (without it the check reports '
         + SIG_OPERAND + ')',
     ]
